@@ -6,7 +6,7 @@ from . import core, stackgen
 from .e1 import H
 
 ZOO = os.path.join(core.HARNESS, "zoo")
-MODES = ["mode_c02.cpp", "mode_c06.cpp", "mode_c17.cpp", "mode_c13.cpp"]
+MODES = ["mode_c02.cpp", "mode_c06.cpp", "mode_c17.cpp", "mode_c13.cpp", "mode_c08.cpp"]
 
 
 def cpu_has_bmi2():
